@@ -31,6 +31,9 @@ type Clause struct {
 	// the obligation is proved by the exhaustive case split k==lo, ..., k==hi-1, k outside [lo,hi)
 	CaseVar        string
 	CaseLo, CaseHi int
+	// atcall: the callee (FuncID) before whose calls the assertion is checked; its
+	// receiver and arguments are available as a0, a1, ...
+	Callee string
 }
 
 type Param struct{ Name, Type string }
@@ -62,8 +65,10 @@ type Contract struct {
 	AllocBound   uint64   // >0: every make([]T, n) in the function has n <= AllocBound (obligation kind "alloc")
 	AllocProps   []string
 	Reveal       []string // opaque specification functions whose definition this proof may use
-	ModelFn      string   // model: spec-file function that replaces it
-	OpaqueFn     string   // opaque: name of the specification function
+	AtCalls      []*Clause
+	LightCalls   bool   // proof hint: quantified postconditions of callees are not imported
+	ModelFn      string // model: spec-file function that replaces it
+	OpaqueFn     string // opaque: name of the specification function
 
 	// signature (filled from the AST)
 	Recv    *Param
@@ -76,6 +81,7 @@ func (c *Contract) AllClauses() []*Clause {
 	var out []*Clause
 	out = append(out, c.Requires...)
 	out = append(out, c.Ensures...)
+	out = append(out, c.AtCalls...)
 	var ks []int
 	for k := range c.Invariant {
 		ks = append(ks, k)
@@ -237,6 +243,18 @@ func ParseContractFile(pkgKey, path string) ([]*Contract, error) {
 				v = 1 << v
 			}
 			cur.AllocBound, cur.AllocProps = v, props
+		case "atcall":
+			// atcall <callee> expr: asserted before every call of <callee> in this function
+			sp := strings.SplitN(rest, " ", 2)
+			if len(sp) != 2 {
+				return nil, fmt.Errorf("%s:%d: atcall <callee> <expr>", path, it.line)
+			}
+			cur.AtCalls = append(cur.AtCalls, &Clause{Kind: "atcall", Props: props, Text: strings.TrimSpace(sp[1]), Callee: sp[0], Line: it.line, N: len(cur.AtCalls)})
+		case "light":
+			if rest != "calls" {
+				return nil, fmt.Errorf("%s:%d: light calls", path, it.line)
+			}
+			cur.LightCalls = true
 		case "reveal":
 			cur.Reveal = append(cur.Reveal, strings.Fields(rest)...)
 		case "split":
@@ -702,6 +720,33 @@ func (idx *sigIndex) fill(c *Contract) error {
 	return nil
 }
 
+// paramTypes returns, for every function of the package, the types of its receiver and
+// parameters in order.
+func (idx *sigIndex) paramTypes() map[string][]string {
+	out := map[string][]string{}
+	for id, d := range idx.funcs {
+		var ts []string
+		if d.Recv != nil && len(d.Recv.List) == 1 {
+			ts = append(ts, exprText(d.Recv.List[0].Type))
+		}
+		for _, f := range d.Type.Params.List {
+			ty := exprText(f.Type)
+			if strings.HasPrefix(ty, "...") {
+				ty = "[]" + ty[3:]
+			}
+			k := len(f.Names)
+			if k == 0 {
+				k = 1
+			}
+			for i := 0; i < k; i++ {
+				ts = append(ts, ty)
+			}
+		}
+		out[id] = ts
+	}
+	return out
+}
+
 func sanitize(s string) string {
 	var b strings.Builder
 	for _, c := range s {
@@ -718,7 +763,7 @@ func sanitize(s string) string {
 
 // GenClauses fills in GoFunc for every clause and returns the Go source of the overlay
 // file that defines the clause functions.
-func GenClauses(pkgName string, imports []string, cs []*Contract) (string, error) {
+func GenClauses(pkgName string, imports []string, cs []*Contract, calleeParams map[string][]string) (string, error) {
 	var b strings.Builder
 	b.WriteString("// Code generated by ionvc from the //@ contracts. DO NOT EDIT.\n\n")
 	b.WriteString("//go:build verif\n// +build verif\n\n")
@@ -762,6 +807,15 @@ func GenClauses(pkgName string, imports []string, cs []*Contract) (string, error
 			if cl.Kind == "ensures" {
 				for _, r := range c.Results {
 					sig = append(sig, r.Name+" "+r.Type)
+				}
+			}
+			if cl.Kind == "atcall" {
+				cp, ok := calleeParams[cl.Callee]
+				if !ok {
+					return "", fmt.Errorf("%s:%d: atcall: function %s not found", c.File, cl.Line, cl.Callee)
+				}
+				for k, t := range cp {
+					sig = append(sig, fmt.Sprintf("a%d %s", k, t))
 				}
 			}
 			for _, p := range cl.Binder {
